@@ -50,6 +50,24 @@ def gen_coeff(rng, is8):
     return gen_word(rng)
 
 
+def directed_sum(rng, regs, M, mlen, halves):
+    """horizontal-sum family: coefficient 1 on the first block of every 12-coefficient row and 0 elsewhere makes every row sum
+    the plain sum a0[0]+a0[1]+a0[2]+a0[3] of four chosen lane values; those are set so that the sum lands within 2^33 of a
+    multiple of 2^64 (from below or above): reaches lost carries of lazy / 128-bit accumulations (~2^-30 for random data)"""
+    for r in range(mlen // 12):
+        for m in range(12):
+            M[12 * r + m] = 1 if m < 4 else 0
+    for h in range(halves):
+        v = [rng.choice([P - 1, M64, P, P + 1, M64 - 0xFFFFFFFF, gen_word(rng), gen_word(rng)]) for _ in range(3)]
+        k = rng.choice([1, 2, 3])
+        delta = rng.choice([0, 1, 2, 0xFFFFFFFE, 0xFFFFFFFF, 0x100000000, rng.below(1 << 33)])
+        t = k * (1 << 64) - delta if rng.below(4) else k * (1 << 64) + delta
+        v3 = (t - sum(v)) & M64
+        for i in range(3):
+            regs[0][4 * h + i] = v[i]
+        regs[0][4 * h + 3] = v3
+
+
 def make_cases(seed, n, names, T):
     rng = Rng(seed ^ 0xC13)
     cases = []
@@ -60,6 +78,8 @@ def make_cases(seed, n, names, T):
         for _ in range(n):
             regs = [[gen_state_word(rng) for _ in range(W)] for _ in range(3)]
             M = [gen_coeff(rng, is8) for _ in range(mlen)]
+            if mlen % 12 == 0 and rng.below(5) == 0:
+                directed_sum(rng, regs, M, mlen, 1)
             line = "%s %s [ %s ]" % (name, " ".join(hx(v) for r in regs for v in r), " ".join(hx(v) for v in M))
 
             def expect(vals, regs=regs, M=M, chk=chk):
